@@ -131,9 +131,17 @@ def const_with_bytes(self, s, store):
     s2 = s.strip()
     if s2.startswith('b"'):
         return ("bytes", parse_bytes_literal(s2))
+    cm = re.match(r"^'(.*)'$", s2, flags=re.S)
+    if cm:  # a char constant: a one-character string
+        body = cm.group(1)
+        ch = {"\\n": "\n", "\\r": "\r", "\\t": "\t", "\\\\": "\\", "\\'": "'", '\\"': '"', "\\0": "\0"}.get(body)
+        if ch is None:
+            um = re.match(r"^\\u\{([0-9a-fA-F]+)\}$", body)
+            ch = chr(int(um.group(1), 16)) if um else body
+        return Str(z3.StringVal(ch))
     m = re.match(r"^<(.+) as ([\w:]+)>::(\w+)::(promoted\[\d+\])$", s2)
     if m:
-        parent = trait_impl_body(self, m.group(1), m.group(2).split("::")[-1], m.group(3), 2)
+        parent = next((x for x in (trait_impl_body(self, m.group(1), m.group(2).split("::")[-1], m.group(3), n) for n in range(0, 9)) if x is not None), None)
         b = self.bodies.get(parent.name + "::" + m.group(4)) if parent is not None else None
         if b is not None:
             outs = list(self.run(b, [], [], store, 0))
@@ -305,6 +313,10 @@ def m_write_str(ex, callee, args, pc, store, depth):
 @front(r"^<(.+) as ToString>::to_string$")
 def m_to_string(ex, callee, args, pc, store, depth):
     ty = re.match(r"^<(.+) as ToString>::to_string$", callee).group(1)
+    sv = deref_all(store, args[0])
+    if isinstance(sv, Str):
+        yield ("value", sv, pc, store)
+        return
     out_cell = ex.world.new(store, FmtOut())
     for r in render_value(ex, ty, args[0], {}, [], out_cell, pc, store, depth):
         if len(r) == 4:
@@ -346,6 +358,47 @@ def m_option_map_or(ex, callee, args, pc, store, depth):
         yield ("value", default, pc, store)
         return
     yield from ex.call_closure(f, [store[o.payload[1][0]]], pc, store, depth)
+
+
+# `str::replace` (all occurrences). z3's Python API cannot build str.replace_all (it aborts), so the term is an uninterpreted
+# function here and is renamed to SMT-LIB's str.replace_all when a query that contains it is handed to cvc5 (c17_listing.py).
+REPLACE_ALL = z3.Function("fml_str_replace_all", z3.StringSort(), z3.StringSort(), z3.StringSort(), z3.StringSort())
+
+
+@front(r"^(core::)?str::<impl str>::replace::<(char|&str|&char)>$")
+def m_str_replace(ex, callee, args, pc, store, depth):
+    s, a, b = (deref_all(store, x) for x in args[:3])
+    if not all(isinstance(x, Str) for x in (s, a, b)):
+        raise Unsupported("str::replace on %r %r %r" % (s, a, b))
+    sv, av, bv = (z3.simplify(x.t) for x in (s, a, b))
+    if all(z3.is_string_value(x) for x in (sv, av, bv)):
+        yield ("value", Str(z3.StringVal(mirx_string(sv).replace(mirx_string(av), mirx_string(bv)))), pc, store)
+    else:
+        yield ("value", Str(REPLACE_ALL(s.t, a.t, b.t)), pc, store)
+
+
+@front(r"^<(std::string::)?String as (std::ops::)?Deref>::deref$|^(std::string::)?String::as_str$|^<(std::string::)?String as AsRef<str>>::as_ref$")
+def m_string_deref(ex, callee, args, pc, store, depth):
+    v = deref_all(store, args[0])
+    if not isinstance(v, (Str, FmtOut, mirx.Opaque)):
+        raise Unsupported("%s on %r" % (callee, v))
+    yield ("value", v, pc, store)   # an opaque message text stays opaque
+
+
+def uses_replace(t):
+    if z3.is_app(t):
+        if t.decl().name() == "fml_str_replace_all":
+            return True
+        return any(uses_replace(c) for c in t.children())
+    return False
+
+
+def eval_string(t, model):
+    """Python value of a string term under a model, applying fml_str_replace_all itself (the model leaves it uninterpreted)."""
+    if z3.is_app(t) and t.decl().name() == "fml_str_replace_all":
+        s, a, b = (eval_string(c, model) for c in t.children())
+        return s.replace(a, b) if a else s
+    return mirx_string(model.eval(t, model_completion=True))
 
 
 mirx.MODELS.table[:0] = FRONT
